@@ -103,6 +103,17 @@ end
     `sd D <program> :: <bits>`     → `OK <description> | <number of bits left>` or `FAIL` -/
 def handleSd (ws : List String) : String :=
   match ws with
+  | ["C", k, b] =>
+    -- canonicity probe: decode, re-encode, compare with the bits consumed
+    match parsePrim k, parseBitString b with
+    | some k, some bits =>
+      match bitCodec.dec k bits with
+      | some (v, rest) =>
+        match bitCodec.enc k v with
+        | some used => if used ++ rest == bits then "CANON " ++ toString used.length else "NONCANON"
+        | none => "NOENC"
+      | none => "FAIL"
+    | _, _ => "bad-op"
   | mode :: rest =>
     let (pw, aw) := rest.span (· != "::")
     match parseStmts pw with
